@@ -114,7 +114,9 @@ func duplexStress(c *Ctx, who string) {
 			go func() {
 				defer wg.Done()
 				<-start
-				buf := make([]byte, 4096)
+				// caller buffers smaller than a frame's plaintext on some connections: the rest of a frame stays with the
+				// connection until the next Read (partial reads on one connection while others read and write)
+				buf := make([]byte, []int{4096, 1, 100, 700, 1023, 4096}[(round+k)%6])
 				defer close(s.readDone)
 				for len(s.gotIn) < len(s.in) {
 					n, err := s.conn.Read(buf)
@@ -423,5 +425,76 @@ func stackedWriters(c *Ctx, who string) {
 			}
 			c.Count(id, n > 4096, "stream:stacked", "stacked:"+kind)
 		}
+	}
+}
+
+// alternatingReads: two (or three) verified connections read by ONE goroutine in turn — a whole frame from one, a part of
+// a frame from the next (caller buffer smaller than the frame's plaintext), back to the first … . What a connection
+// keeps between two Reads (the rest of a decrypted frame) is its own: every connection hands on exactly the bytes ITS
+// peer sent, in order, whatever the other connections did in between. (One goroutine makes the order of the calls — and
+// the reuse of anything the connections share, e.g. pooled buffers — deterministic.)
+func alternatingReads(c *Ctx, who string) {
+	for i := 0; i < c.Pick(10, 200); i++ {
+		id := c.CaseID("alternating-reads", i)
+		if c.Skip(id) {
+			continue
+		}
+		r := c.CaseRng("alternating-reads", i)
+		n := 2 + r.Intn(2)
+		type side struct {
+			raw  *hoConn
+			conn *hap.Connection
+			peer *refSession
+			sent []byte
+			got  []byte
+		}
+		ctx := hap.NewContextForSecuredDevice(nil)
+		var sides []*side
+		for k := 0; k < n; k++ {
+			raw := newHoConn()
+			ac := &addrConn{Conn: raw, remote: fakeAddr(fmt.Sprintf("10.9.1.%d:%d", k+1, 5100+k))}
+			s := &side{raw: raw, conn: hap.NewConnection(ac, ctx)}
+			var shared [32]byte
+			copy(shared[:], randBytes(r, 32))
+			sec, _ := crypto.NewSecureSessionFromSharedKey(shared)
+			ctx.GetSessionForConnection(ac).SetCryptographer(sec)
+			responseWritten(ctx, ac)
+			s.peer = newRefControllerSession(shared[:])
+			sides = append(sides, s)
+		}
+		var trace []string
+		bad := ""
+		steps := 6 + r.Intn(30)
+		for step := 0; step < steps && bad == ""; step++ {
+			k := r.Intn(n)
+			s := sides[k]
+			pending := len(s.sent) - len(s.got)
+			if pending == 0 {
+				msg := bytes.Repeat([]byte{byte('A' + k)}, []int{1, 40, 300, 1024, 1500}[r.Intn(5)])
+				s.raw.push(s.peer.Encrypt(msg))
+				s.sent = append(s.sent, msg...)
+				pending = len(msg)
+			}
+			// a whole frame's worth, or only a part of what is pending
+			want := pending
+			if r.Intn(2) == 0 && pending > 1 {
+				want = 1 + r.Intn(pending-1)
+			}
+			buf := make([]byte, want)
+			m, err := s.conn.Read(buf)
+			trace = append(trace, fmt.Sprintf("conn%d.Read(%d)=%d", k+1, want, m))
+			s.got = append(s.got, buf[:m]...)
+			if err != nil || m == 0 || !bytes.HasPrefix(s.sent, s.got) {
+				bad = fmt.Sprintf("connection %d: Read returned n=%d err=%v; %d bytes handed on so far, first difference from what its peer sent at %d (byte %q)", k+1, m, err, len(s.got), firstDiff(s.got, s.sent), string(buf[:min(m, 1)]))
+			}
+		}
+		if bad != "" {
+			c.Violate(who+" alternating reads: a connection does not hand on exactly what its own peer sent (another connection read a part of a frame in between)", id,
+				map[string]interface{}{"connections": n, "calls": trace}, "every connection: the bytes of its own peer, in order", bad)
+		}
+		for _, s := range sides {
+			s.raw.Close()
+		}
+		c.Count(fmt.Sprint(id, trace), true, "stream:alternating-reads", fmt.Sprintf("alternating-reads:conns=%d", n))
 	}
 }
